@@ -539,3 +539,7 @@ SUBCHECKS = [
         note='a DAG, the pruned branch of one of its nodes and the clones of that node\'s ancestors over the pruned branch'),
     Sub('plain-bitarray-route', check, strategy=strat_plain, classify=classify, nontrivial=nt, n=(600, 10000), shards=(4, 16)),
 ]
+
+# the same generated cases, several at a time, checked by threads that run at the same time (core.run_overlapping): per-call state
+# kept in a place two calls share shows only there
+SUBCHECKS.append(__import__('harness.core', fromlist=['overlapped']).overlapped(next(s for s in SUBCHECKS if s.name == 'dags'), k=3, n=(40, 1500)))
